@@ -3,6 +3,7 @@
 // and "the same random stream" is obtained by rewinding the symbolic stream.  Claims are exact statements over all streams.
 #include <Bpp/Numeric/Random/RandomTools.h>
 #include <Bpp/Numeric/Random/ContingencyTableGenerator.h>
+#include <Bpp/Numeric/Stat/ContingencyTableTest.h>
 #include <Bpp/Numeric/Prob/GaussianDiscreteDistribution.h>
 #include <Bpp/Numeric/Prob/ExponentialDiscreteDistribution.h>
 #include <Bpp/Numeric/Prob/GammaDiscreteDistribution.h>
@@ -83,6 +84,15 @@ extern "C" void verif_harness() {
     SYM_ASSERT((int)t.getNumberOfRows() == nr && (int)t.getNumberOfColumns() == nc, "contingency table has the wrong shape");
     for (int i = 0; i < nr; i++) { size_t s = 0; for (int j = 0; j < nc; j++) { SYM_ASSERT(t(i, j) <= tr, "contingency table entry out of range (wrapped)"); s += t(i, j); } SYM_ASSERT(s == rt[i], "a row of the random table does not have the requested total"); }
     for (int j = 0; j < nc; j++) { size_t s = 0; for (int i = 0; i < nr; i++) s += t(i, j); SYM_ASSERT(s == ct[j], "a column of the random table does not have the requested total"); }
+  } else if (which == 4) {
+    // ---- independence test by permutation: the p-value lies in (0,1] and is (1 + number of random tables at least as extreme) / (1 + permutations), for every random stream ----
+    int a = __sym_choose("n00", 0, 2), b = __sym_choose("n01", 0, 2), c = __sym_choose("n10", 0, 2), d = __sym_choose("n11", 0, 2); if (a + b == 0 || c + d == 0 || a + c == 0 || b + d == 0) __sym_prune();
+    int perms = __sym_choose("permutations", 1, 2);
+    vector<vector<size_t>> t{{(size_t)a, (size_t)b}, {(size_t)c, (size_t)d}};
+    ContingencyTableTest test(t, (unsigned)perms, false);
+    double p = test.getPValue(); SYM_ASSERT(p > 0 && p <= 1, "independence test: p-value outside (0,1]");
+    bool ok = false; for (int k = 1; k <= perms + 1; k++) if (__sym_eq(p * (perms + 1), (double)k)) ok = true; SYM_ASSERT(ok, "independence test: p-value is not (count+1)/(permutations+1)");
+    SYM_ASSERT(test.getStatistic() >= 0, "negative chi-square statistic");
   } else {
     // ---- unweighted sampling: structure (integer draws use the real generator with a fixed seed; the claim is structural) ----
     int n = __sym_choose("n", 0, 4), m = __sym_choose("sampleSize", 0, 5), repl = __sym_choose("replace", 0, 1);
